@@ -219,7 +219,9 @@ def r_accum(prog, tier):
                              (upds, 'lexicon count is updated exactly once per token', False)):
         ok = None
         why = '%d statements of the recognised form' % len(lst)
-        if len(lst) > 1:
+        if len(lst) > 1 and not any(b_.id in cfg.reach(a_.id, avoid=frozenset(a_.loops)) for a_ in lst for b_ in lst if a_ is not b_):
+            ok, why = None, 'the count is changed at %d places that exclude each other (one per branch): not followed' % len(lst)
+        elif len(lst) > 1:
             ok, why = False, 'the count is changed at %d places per node' % len(lst)
         if len(lst) == 1:
             n = lst[0]
@@ -354,14 +356,18 @@ def _local_accumulates(f, name, at, slot, parent, tgt):
                  'that path' % name
 
 
-def _derived_from(f, name, G, depth=0):
-    """Is local `name` the grammar parameter G, or (by every one of its definitions) an entry of it obtained by
-    iterating / subscripting it?"""
+def _derived_from(f, name, G, depth=0, at=None):
+    """Is local `name` the grammar parameter G, or (by every one of its definitions - every one that reaches cfg node `at`,
+    when given) an entry of it obtained by iterating / subscripting it?"""
     if name == G:
         return True
     if depth > 4:
         return False
     defs = name_defs(f, name)
+    if at is not None and len(defs) > 1:
+        ids = frozenset(d for (d, _) in defs)
+        reaching = [(d, v) for (d, v) in defs if d == at or at in f.cfg.reach(d, avoid=ids - {d})]
+        defs = reaching or defs
     if not defs:
         return False
     for (n, v) in defs:
@@ -372,12 +378,12 @@ def _derived_from(f, name, G, depth=0):
                 base = base.func.value
             while isinstance(base, ast.Subscript):
                 base = base.value
-            ok = isinstance(base, ast.Name) and base.id != name and _derived_from(f, base.id, G, depth + 1)
+            ok = isinstance(base, ast.Name) and base.id != name and _derived_from(f, base.id, G, depth + 1, n)
         elif isinstance(v, ast.AST):
             base = v
             while isinstance(base, ast.Subscript):
                 base = base.value
-            ok = isinstance(base, ast.Name) and base.id != name and _derived_from(f, base.id, G, depth + 1)
+            ok = isinstance(base, ast.Name) and base.id != name and _derived_from(f, base.id, G, depth + 1, n)
         if not ok:
             return False
     return True
@@ -429,7 +435,7 @@ def _count_source(f, arg, at, G):
                     src = src.func.value
                 while isinstance(src, ast.Subscript):
                     src = src.value
-                if isinstance(src, ast.Name) and _derived_from(f, src.id, G):
+                if isinstance(src, ast.Name) and _derived_from(f, src.id, G, 0, n):
                     continue
                 if isinstance(src, ast.Name) and src.id in f.locals:
                     return False, '`%s` is taken from `%s`, a table rebuilt in this function and not the source grammar: ' \
@@ -443,7 +449,7 @@ def _count_source(f, arg, at, G):
         base = e
         while isinstance(base, ast.Subscript):
             base = base.value
-        if isinstance(base, ast.Name) and _derived_from(f, base.id, G):
+        if isinstance(base, ast.Name) and _derived_from(f, base.id, G, 0, n):
             continue
         if isinstance(base, ast.Name) and base.id in f.locals:
             return False, '`%s = %s` (line %d) reads `%s`, which is not the source grammar: the count handed over is not ' \
@@ -800,6 +806,17 @@ def r_argpos(prog, tier):
             try:
                 inner = n.loops[-1] if n.loops else None
                 tab, tests = guard_table(f, n.id, ['empty', 'same'], atom_of, within=inner)
+                # the same emission written once per case (`if empty: emit  elif last != child: emit`): a reference is
+                # emitted when ANY of the sites in this loop emits
+                twins = [m_ for m_ in cfg.eval_nodes() if m_.id != n.id and m_.kind == 'stmt' and m_.loops == n.loops
+                         and unparse(m_.ast) == unparse(n.ast)]
+                if twins:
+                    if n.id > min(m_.id for m_ in twins):
+                        continue            # judged together with the first of them
+                    for m_ in twins:
+                        t2_, tests2_ = guard_table(f, m_.id, ['empty', 'same'], atom_of, within=inner)
+                        tab = tuple(a_ or b_ for (a_, b_) in zip(tab, t2_))
+                        tests = tests or tests2_
                 want = tuple((e_ or not s_) for (e_, s_) in [(bool(k_ & 1), bool(k_ & 2)) for k_ in range(4)])
                 if not tests:
                     okm, whym = False, 'the emission is not guarded at all: consecutive tokens of one child get one reference each'
@@ -810,6 +827,14 @@ def r_argpos(prog, tier):
                             unparse(il_.ast.iter)[:50]
                 elif tab == want:
                     okm, whym = True, 'guard equivalent to `len(%s) == 0 or %s[-1][0] != %s` (all four cases compared)' % (cur, cur, ks_)
+                elif inner is not None and any(
+                        m_.kind == 'stmt' and isinstance(m_.ast, ast.Expr) and isinstance(m_.ast.value, ast.Call)
+                        and unparse(m_.ast.value.func) == cur + '.append' and inner not in m_.loops
+                        and tuple(m_.loops) == tuple(cfg.nodes[inner].loops) and cfg.dominates(m_.id, inner)
+                        for m_ in cfg.eval_nodes()) and all(tab[i_] == want[i_] for i_ in range(4) if not (i_ & 1)):
+                    # the first token of the block is handled in front of the loop: inside it the argument is never empty
+                    okm, whym = True, 'the first reference of every block is emitted before the loop; inside it the guard is ' \
+                                      '`%s[-1][0] != %s` (the two cases with a non-empty argument compared)' % (cur, ks_)
                 else:
                     k_ = [i for i in range(4) if tab[i] != want[i]][0]
                     okm = False
@@ -1688,6 +1713,14 @@ def r_discont(prog, tier):
                 ok2, why2 = _cf_by_loops(g2)
                 if ok2 is not None:
                     ok, why = ok2, why2 + ' (any()/all() conditions spelled out as loops)'
+    # position 0 of the fan-out vector is the left-hand side; any other position is a right-hand-side element
+    for x_ in walk_own(f.node):
+        if isinstance(x_, ast.Subscript) and isinstance(x_.value, ast.Call) and prog.callee(x_.value, f) == ('grammaranalysis', 'fan_out') \
+                and isinstance(x_.slice, ast.Constant) and isinstance(x_.slice.value, int) and x_.slice.value != 0:
+            ok = False
+            why = '`%s` reads the fan-out of right-hand-side element %d, not of the left-hand side (position 0): a grammar whose ' \
+                  'discontinuous constituents are not the first child of their parent is reported context-free' % (
+                      unparse(x_), x_.slice.value)
     obs.append(Ob('R-DISCONT/CHAIN', f.fq, 'a grammar is context-free iff no linearization has more than one argument',
                   ok, why, construct='chain-cf', line=f.node.lineno))
     return obs, {}
